@@ -387,6 +387,16 @@ def run(ctx: Ctx) -> None:
     early = [s for s in walk_local(ga) if isinstance(s, ast.If) and norm(s.test) in ("not tokbuf", "not self.tokbuf")]
     ctx.ob("R11.5", "lexer:LexerTokenStream.get_doxygen_after|nothing after a line end", bool(early), msg="the trailing scan no longer stops when the statement is followed directly by a line end", node=ga, mod=lex, nontrivial=False)
 
+    # ---------------------------------------------------------------- R11.8
+    # The two scans read the buffer: what they see is what the buffer fill put there.  A comment token that the fill
+    # re-types, rewrites or drops (a plain comment turned into a line end detaches the doc block above it; a doc comment
+    # turned into a blank is lost) never reaches them.  The fill is interpreted over every short script of raw tokens,
+    # a plain line comment among them (sa/fillmodel.py): every raw token is buffered once, in order, unchanged.
+    ctx.rule("R11.8", "the buffer the comment scans read holds every raw token, comments included, unchanged and in order", minimum=1)
+    from .. import fillmodel as _fillmodel
+    from ..lexmodel import LexModel as _LexModel
+    _fillmodel.obligations(ctx, "R11.8", lex, set(_LexModel(ctx.repo).udl_start), ("keep",))
+
 
 # ---------------------------------------------------------------------------
 
